@@ -181,7 +181,7 @@ ORDER_SEQS = None
 # ---------------------------------------------------------------------------
 # Part C: traversal / query / rebind-by-function / flatten-canonicalize
 # ---------------------------------------------------------------------------
-TKEYS = ('a', 'a.b', '0', '[0]', 'é')
+TKEYS = ('a', 'a.b', '0', '[0]', 'é', 5, '$')        # dicts admit integer keys (any value, not only small ones)
 
 
 def values(depth, symbolic):
@@ -244,7 +244,11 @@ def tree_item(rec, toks):
       rec.viol('utils-traverse-visit-log', f'utils.traverse visited {seen_u!r}', tr)
     for keys, node in truth:
       p = KeyPath(list(keys))
-      got = p.query(v)
+      try:
+        got = p.query(v)
+      except Exception as e:  # pylint: disable=broad-except
+        rec.viol(f'query-by-path-raises:{type(e).__name__}', f'KeyPath({list(keys)!r}).query(root) raises for a node that traversal reports: {e}', tr)
+        continue
       if got is not node and not (isinstance(node, (int, str)) and got == node):
         rec.viol('query-by-path', f'KeyPath({list(keys)!r}).query(root) is not the node stored there', tr)
       # the printed path must address the same node (rebind-by-function relies on it)
@@ -325,6 +329,7 @@ def _fkey(v):
 # Part D: KeyPathSet against a Python set (E1 to closure)
 # ---------------------------------------------------------------------------
 UNIV = (('a',), ('a', 'b'), ('a', 0), ('c',), ('c', 'a.b'), (0,))
+UNIV_DOLLAR = (('a',), ('$',), ('a', '$'))      # '$' is an ordinary key (it is also the end marker of the trie)
 PREFIXES = ((), ('a',), ('c',), ('a', 'b'), ('z',), (0,), ('c', 'a.b'))
 
 
@@ -339,7 +344,14 @@ def mkset(ts):
 class SetSpace(statespace.Space):
   name = 'keypathset'
 
+  def __init__(self, univ=None, tag=''):
+    self.univ = univ or UNIV
+    self.tag = tag           # root-cause tag for the signatures of this universe
+    self.name = 'keypathset' + tag
+
   def initials(self):
+    if self.tag:
+      return [((), ())]
     return [((), ()), ((('a',),), (('a', 'b'), ('c',)))]
 
   def build(self, init):
@@ -352,7 +364,7 @@ class SetSpace(statespace.Space):
 
   def ops(self, w):
     ops = []
-    for t in UNIV:
+    for t in self.univ:
       ops += [('add', t), ('remove', t), ('addy', t), ('removey', t)]
     ops += [('update',), ('union',), ('plus',), ('intersection_update',), ('intersection',), ('difference_update',),
             ('difference',), ('clear',), ('copy',), ('swap',)]
@@ -399,43 +411,59 @@ class SetSpace(statespace.Space):
         if want or r:
           self._expect(rec, r if r else KeyPathSet(), want, op, trace)
     except Exception as e:  # pylint: disable=broad-except
-      rec.viol(f'keypathset-raises/{k}', f'{op!r} on {sorted(m, key=repr)!r} raises {type(e).__name__}: {e}', trace)
+      self._viol(rec, f'keypathset-raises/{k}', f'{op!r} on {sorted(m, key=repr)!r} raises {type(e).__name__}: {e}', trace)
       return True
     rec.stat(f'set:{k}')
     bad = False
     if k in ('add', 'remove') and res is not None and bool(res) != bool(mres):
-      rec.viol(f'keypathset-return/{k}', f'{op!r} returned {res!r}, a set would report {mres!r}', trace)
+      self._viol(rec, f'keypathset-return/{k}', f'{op!r} returned {res!r}, a set would report {mres!r}', trace)
       bad = True
-    for name, s, model in (('x', w['x'], w['m']), ('y', w['y'], w['n'])):
-      got = {tuple(p.keys) for p in s}
-      if got != model:
-        rec.viol(f'keypathset-content/{k}', f'after {op!r}: {name} holds {sorted(got, key=repr)!r}, a set holds '
-                 f'{sorted(model, key=repr)!r}', trace)
-        bad = True
-        continue
-      for t in UNIV:
-        if (kp(t) in s) != (t in model):
-          rec.viol(f'keypathset-contains/{k}', f'after {op!r}: {t!r} in {name} gives {kp(t) in s}', trace)
-          bad = True
-      for pfx in PREFIXES:
-        if not pfx:
-          continue      # the trivial prefix of an empty set is not specified
-        want = any(t[:len(pfx)] == pfx for t in model)
-        if bool(s.has_prefix(kp(pfx))) != want:
-          rec.viol(f'keypathset-has_prefix/{k}', f'after {op!r}: has_prefix({pfx!r}) gives {s.has_prefix(kp(pfx))}, '
-                   f'content {sorted(model, key=repr)!r}', trace)
-          bad = True
-      if bool(s) != bool(model) or (s == mkset(sorted(model, key=repr))) is False:
-        rec.viol(f'keypathset-eq-bool/{k}', f'after {op!r}: bool/== disagree with the set model', trace)
-        bad = True
+    try:
+      bad = self._reads(w, op, k, rec, trace) or bad
+    except Exception as e:  # pylint: disable=broad-except
+      self._viol(rec, f'keypathset-read-raises:{type(e).__name__}/{k}', f'after {op!r} on {sorted(w["m"], key=repr)!r}: reading the set raises {e}', trace)
+      bad = True
     if not bad:
       rec.nt((k, repr(sorted(w['m'], key=repr)), repr(sorted(w['n'], key=repr))))
     return bad
 
+  def _reads(self, w, op, k, rec, trace):
+    bad = False
+    for name, s, model in (('x', w['x'], w['m']), ('y', w['y'], w['n'])):
+      got = {tuple(p.keys) for p in s}
+      if got != model:
+        self._viol(rec, f'keypathset-content/{k}', f'after {op!r}: {name} holds {sorted(got, key=repr)!r}, a set holds '
+                 f'{sorted(model, key=repr)!r}', trace)
+        bad = True
+        continue
+      for t in self.univ:
+        if (kp(t) in s) != (t in model):
+          self._viol(rec, f'keypathset-contains/{k}', f'after {op!r}: {t!r} in {name} gives {kp(t) in s}', trace)
+          bad = True
+      for pfx in (PREFIXES if not self.tag else self.univ):
+        if not pfx:
+          continue      # the trivial prefix of an empty set is not specified
+        want = any(t[:len(pfx)] == pfx for t in model)
+        if bool(s.has_prefix(kp(pfx))) != want:
+          self._viol(rec, f'keypathset-has_prefix/{k}', f'after {op!r}: has_prefix({pfx!r}) gives {s.has_prefix(kp(pfx))}, '
+                   f'content {sorted(model, key=repr)!r}', trace)
+          bad = True
+      if bool(s) != bool(model) or (s == mkset(sorted(model, key=repr))) is False:
+        self._viol(rec, f'keypathset-eq-bool/{k}', f'after {op!r}: bool/== disagree with the set model', trace)
+        bad = True
+    return bad
+
+  def _viol(self, rec, sig, what, trace):
+    """The '$' universe has one root cause (the same operations on other keys are covered by the main universe)."""
+    if self.tag:
+      # this universe differs from the main one only by the key '$' (also probed by every read): one root cause
+      sig = 'keypathset/dollar-key-collides-with-trie-end-marker'
+    rec.viol(sig, what, trace)
+
   def _expect(self, rec, r, want, op, trace):
     got = {tuple(p.keys) for p in r}
     if got != set(want):
-      rec.viol(f'keypathset-result/{op[0]}', f'{op!r} returned {sorted(got, key=repr)!r}, a set gives {sorted(want, key=repr)!r}', trace)
+      self._viol(rec, f'keypathset-result/{op[0]}', f'{op!r} returned {sorted(got, key=repr)!r}, a set gives {sorted(want, key=repr)!r}', trace)
 
 
 # ---------------------------------------------------------------------------
@@ -476,6 +504,7 @@ def run(ctx):
   ctx.pmap(tree_item, chunks(toks, 100), chunk=1)
   ctx.note('nested_values', len(toks))
   n = statespace.explore(ctx, SetSpace(), max_depth=30)
+  n += statespace.explore(ctx, SetSpace(UNIV_DOLLAR, '-dollar'), max_depth=3)
   ctx.note('keypathset_states', n)
   ctx.states += len(seqs) + len(toks)
   ctx.sample(dict(keys=['a.b', 0, '0', '[0]'], printed=str(KeyPath(['a.b', 0, '0', '[0]']))))
@@ -500,7 +529,7 @@ def replay(rec, data):
   elif k == 'tree':
     tree_item(rec, [(statespace._tup(data['value']), data['symbolic'])])
   else:
-    sp = SetSpace()
+    sp = SetSpace(UNIV_DOLLAR, '-dollar') if data.get('space') == 'keypathset-dollar' else SetSpace()
     statespace.replay_trace(sp, rec, dict(data, init=statespace._tup(data['init'])))
 
 
